@@ -71,5 +71,80 @@ def assignList (a : List α) (d : BaseSlice) (rhs : List α) : Except String (Li
 def fill (a : List α) (d : BaseSlice) (v : α) : List α :=
   scatter a (indices d) (List.replicate d.nc.toNat v)
 
+/-! ## the same operations on `Array α` (constant-time cell access)
+
+Used by the driver for the LARGE correspondence cases (same-array overlapping pairs with 10^3…10^5
+elements, random assignments on arrays up to 10^5): the `List` model above costs O(n) per cell.
+Every `…A` function is proved equal, cell for cell, to the `List` model the theorems of
+`Props/C04` are about (`…_toList`), so a large case checked against `assignSliceA` is checked
+against `assignSlice`. -/
+
+def getIA [Inhabited α] (a : Array α) (i : Int) : α := a.getD i.toNat default
+
+def gatherA [Inhabited α] (a : Array α) (idx : List Int) : List α := idx.map (getIA a)
+
+def setIA (a : Array α) (i : Int) (v : α) : Array α := if i < 0 then a else a.setIfInBounds i.toNat v
+
+def scatterA (a : Array α) : List Int → List α → Array α
+  | i :: is, v :: vs => scatterA (setIA a i v) is vs
+  | _, _ => a
+
+def assignSliceA [Inhabited α] (dstArr srcArr : Array α) (d s : BaseSlice) : Except String (Array α) :=
+  if d.nc ≠ s.nc then .error "Slices size must be equal"
+  else .ok (scatterA dstArr (indices d) (gatherA srcArr (indices s)))
+
+def assignArrayA [Inhabited α] (a : Array α) (d : BaseSlice) (rhs : Array α) : Except String (Array α) :=
+  match BaseSlice.ctor rhs.size 0 rhs.size 1 with
+  | .error e => .error e
+  | .ok s => assignSliceA a rhs d s
+
+def assignListA (a : Array α) (d : BaseSlice) (rhs : List α) : Except String (Array α) :=
+  if d.nc ≠ rhs.length then .error "Slices size must be equal"
+  else .ok (scatterA a (indices d) rhs)
+
+def fillA (a : Array α) (d : BaseSlice) (v : α) : Array α :=
+  scatterA a (indices d) (List.replicate d.nc.toNat v)
+
+theorem getIA_toList [Inhabited α] (a : Array α) (i : Int) : getIA a i = getI a.toList i := by
+  simp [getIA, getI, Array.getD, List.getD]
+  split <;> simp_all
+
+theorem gatherA_eq [Inhabited α] (a : Array α) (idx : List Int) : gatherA a idx = gather a.toList idx := by
+  simp [gatherA, gather, getIA_toList]
+
+theorem setIA_toList (a : Array α) (i : Int) (v : α) : (setIA a i v).toList = setI a.toList i v := by
+  unfold setIA setI; split <;> simp
+
+theorem scatterA_toList (a : Array α) (idx : List Int) (vals : List α) :
+    (scatterA a idx vals).toList = scatter a.toList idx vals := by
+  induction idx generalizing a vals with
+  | nil => simp [scatterA, scatter]
+  | cons i is ih =>
+    cases vals with
+    | nil => simp [scatterA, scatter]
+    | cons v vs => simp [scatterA, scatter, ih, setIA_toList]
+
+/-- the array version of slice assignment IS the list model (same error, same cells) -/
+theorem assignSliceA_toList [Inhabited α] (dstArr srcArr : Array α) (d s : BaseSlice) :
+    (assignSliceA dstArr srcArr d s).map Array.toList = assignSlice dstArr.toList srcArr.toList d s := by
+  unfold assignSliceA assignSlice
+  split <;> simp [Except.map, scatterA_toList, gatherA_eq]
+
+theorem assignArrayA_toList [Inhabited α] (a : Array α) (d : BaseSlice) (rhs : Array α) :
+    (assignArrayA a d rhs).map Array.toList = assignArray a.toList d rhs.toList := by
+  unfold assignArrayA assignArray
+  simp only [Array.length_toList]
+  split
+  · simp [Except.map]
+  · exact assignSliceA_toList a rhs d _
+
+theorem assignListA_toList (a : Array α) (d : BaseSlice) (rhs : List α) :
+    (assignListA a d rhs).map Array.toList = assignList a.toList d rhs := by
+  unfold assignListA assignList
+  split <;> simp [Except.map, scatterA_toList]
+
+theorem fillA_toList (a : Array α) (d : BaseSlice) (v : α) : (fillA a d v).toList = fill a.toList d v := by
+  simp [fillA, fill, scatterA_toList]
+
 end Slice
 end Dsp
